@@ -32,8 +32,24 @@ def one(ctx, drv, i, prof, case):
     canon_v = real.make_validator(case)
     Validator.clear_caches()
     c2 = dict(case, schema=short)
+    au = case.get('cfg', {}).get('allow_unknown')
+    au_by = None
+    if isinstance(au, dict) and au:
+        # the rule set given as the validator option allow_unknown is written in shorthand form as well,
+        # and handed over by the constructor or by assignment
+        w, ap = rewrite.to_shorthand(rng, {0: au}, p=0.7)
+        if ap:
+            applied = applied + [(k, key, 'option allow_unknown') for k, key, where in ap]
+            au_by = rng.choice(['constructor', 'assignment'])
+            c2 = dict(c2, cfg=dict(case['cfg'], allow_unknown=w[0]))
+            jcase['allow_unknown_shorthand'] = codec.enc_val(w[0])
+            jcase['allow_unknown_given_by'] = au_by
     try:
-        short_v = real.make_validator(c2)
+        if au_by == 'assignment':
+            short_v = real.make_validator(dict(c2, cfg={k: v for k, v in c2['cfg'].items() if k != 'allow_unknown'}))
+            short_v.allow_unknown = copy.deepcopy(c2['cfg']['allow_unknown'])
+        else:
+            short_v = real.make_validator(c2)
     except SchemaError as e:
         ctx.fail('C15 oracle: the shorthand form is rejected although the canonical form is accepted (%s)'
                  % (applied[:3],), jcase, detail=str(e)[:300])
@@ -55,7 +71,12 @@ def one(ctx, drv, i, prof, case):
         return
     for normalize in (False, True):
         a = real.run_validate(case, normalize=normalize)
-        b = real.run_validate(c2, normalize=normalize)
+        if au_by == 'assignment':
+            bv = real.make_validator(dict(c2, cfg={k: v for k, v in c2['cfg'].items() if k != 'allow_unknown'}))
+            bv.allow_unknown = copy.deepcopy(c2['cfg']['allow_unknown'])
+            b = real.run_validate(c2, normalize=normalize, v=bv)
+        else:
+            b = real.run_validate(c2, normalize=normalize)
         if (a.exc is None) != (b.exc is None):
             ctx.fail('C15 oracle: only one of the two forms raised', jcase)
             return
